@@ -2,6 +2,7 @@ import Beetswap.Proofs.ClientQuery
 import Beetswap.Proofs.Server
 import Beetswap.Generated
 import Beetswap.Proofs.ServerLinkThms
+import Beetswap.Proofs.ServerCap
 /-!
 # C13 — State held per peer and per query is bounded and released
 -/
@@ -82,5 +83,28 @@ theorem record_dropped_with_last_connection (s : ServerLink.State) (hr : ServerL
   Proofs.ServerLink.record_dropped_with_last_connection s hr p hall
 
 end Pipeline
+
+/-! ### Known finding F15: what the cap costs (see `known_findings.json`, DESIGN.md 0.4) -/
+section F15
+open Beetswap.Server Beetswap.Proofs.Server
+
+/-- The cap C13 requires, seen from the requester: of a full wantlist for `n` CIDs the server records the
+first 1024 and drops the rest, whatever it recorded before … -/
+theorem full_beyond_cap_dropped (cur : KSet) (n k : Nat) :
+    k ∈ (processWantlist cur true (wantsUpTo n)).1 ↔ k < maxWantlistEntries ∧ k < n :=
+  Proofs.Server.full_beyond_cap_dropped cur n k
+
+/-- … and the same wantlist sent again (every refresh, same order) drops the same ones: with more than
+1024 wants outstanding towards one peer the tail is not served by that peer (C02 carries the
+hypothesis `nextQuery ≤ 1024` for this reason). -/
+theorem full_again_drops_same (cur : KSet) (n : Nat) :
+    ∀ k, k ∈ (processWantlist (processWantlist cur true (wantsUpTo n)).1 true (wantsUpTo n)).1 ↔
+         k ∈ (processWantlist cur true (wantsUpTo n)).1 :=
+  Proofs.Server.full_again_drops_same cur n
+
+example : (1030 : Nat) ∉ (processWantlist ∅ true (wantsUpTo 2000)).1 := by
+  rw [Proofs.Server.full_beyond_cap_dropped]; decide
+
+end F15
 
 end Beetswap.Props.C13
